@@ -79,6 +79,13 @@ func genC16(r *kernel.Rand, sc *kernel.Scenario, tier string, run int, exhaustiv
 		// same process; the connection under test must not notice at all
 		sc.Faults = append(sc.Faults, kernel.St("badsend", "before", r.Intn(k+1), "kind", r.Intn(2), "other", r.Intn(2)))
 	}
+	if r.Bool(0.3) {
+		// an envelope at the edge of what a frame can carry: its protobuf frame
+		// is "slack" bytes longer (or shorter) than the largest frame the 16-bit
+		// length prefix can announce. Sending it either fails cleanly or it
+		// arrives like any other envelope; in both cases the stream stays framed
+		sc.Faults = append(sc.Faults, kernel.St("edge", "before", r.Intn(k+1), "slack", r.Range(-150, 150)))
+	}
 	if r.Bool(0.35) {
 		// transient write errors: every single Write call of the stream (up to a
 		// cap, then sampled) fails once; a Send whose write failed must report it,
@@ -248,6 +255,9 @@ func (Engine) execC16(sc *kernel.Scenario, res *kernel.Result, trace bool) {
 		}
 		vals = append(vals, v)
 		res.Count("op.env."+v.typ.String(), 1)
+		if v.cross {
+			res.Count("probe.cross-ledger-allocation", 1)
+		}
 	}
 	if len(vals) == 0 {
 		return
@@ -259,7 +269,29 @@ func (Engine) execC16(sc *kernel.Scenario, res *kernel.Result, trace bool) {
 		conn := wirenet.NewIoConn(l.A, serializers[ser])
 		var frameEnds []int
 		closedAfter, badSent := -1, false
+		var sent []*value
 		for i, v := range vals {
+			for fi := range sc.Faults {
+				if f := &sc.Faults[fi]; f.Op == "edge" && int(f.Int("before")) == i && closedAfter < 0 {
+					ev, size := edgeEnvelope(v.v.(*wire.Envelope), int(f.Int("slack")))
+					if ev == nil {
+						continue
+					}
+					res.Count("fault.edge-size-envelope", 1)
+					if err := conn.Send(ev.v.(*wire.Envelope)); err != nil {
+						// refused: like any failed Send it must leave the stream framed
+						res.Count("probe.edge-envelope-refused@"+serNames[ser], 1)
+						logf("%s: edge envelope (protobuf frame of %d bytes) refused: %v", serNames[ser], size, err)
+						badSent = true
+						continue
+					}
+					res.Count("probe.edge-envelope-sent@"+serNames[ser], 1)
+					logf("%s: edge envelope (protobuf frame of %d bytes) sent", serNames[ser], size)
+					sent = append(sent, ev)
+					d, _ := l.A.Sent()
+					frameEnds = append(frameEnds, len(d))
+				}
+			}
 			for fi := range sc.Faults {
 				if f := &sc.Faults[fi]; f.Op == "badsend" && int(f.Int("before")) == i && closedAfter < 0 {
 					bad := unencodable(v.v.(*wire.Envelope), int(f.Int("kind")))
@@ -294,17 +326,16 @@ func (Engine) execC16(sc *kernel.Scenario, res *kernel.Result, trace bool) {
 				res.Fail(i, "C16.encode-error@"+serNames[ser]+"/"+v.label, "well-formed envelope %d could not be sent: %v", i, err)
 				return
 			}
+			sent = append(sent, v)
 			d, _ := l.A.Sent()
 			frameEnds = append(frameEnds, len(d))
 		}
+		// only what was reported as sent must arrive, in order and unchanged
 		allVals := vals
-		if closedAfter >= 0 {
-			// only what was reported as sent must arrive, in order and unchanged
-			vals = vals[:closedAfter]
-			if len(vals) == 0 {
-				vals = allVals
-				continue
-			}
+		vals = sent
+		if len(vals) == 0 {
+			vals = allVals
+			continue
 		}
 		data, writes := l.A.Sent()
 		logf("%s stream: %d envelopes, %d bytes, %d writes, frames end at %v", serNames[ser], len(vals), len(data), len(writes), frameEnds)
@@ -456,6 +487,33 @@ func unencodable(like *wire.Envelope, kind int) *wire.Envelope {
 		Assets: []channel.Asset{gen.Asset(0)}, Backends: []wallet.BackendID{channel.TestBackendID}, Balances: channel.Balances{{huge, big.NewInt(1)}}}}
 	e.Msg = &client.ChannelUpdateMsg{ChannelUpdate: client.ChannelUpdate{State: st}, Sig: make([]byte, 64)}
 	return e
+}
+
+// edgeEnvelope returns a shutdown envelope between the same two parties whose
+// protobuf frame body is 65535+slack bytes long (nil if that cannot be built),
+// and that length. The length is extrapolated from a smaller envelope of the
+// same shape: between 16 KiB and 2 MiB every nested length prefix has three
+// bytes, so the size is linear in the length of the reason.
+func edgeEnvelope(like *wire.Envelope, slack int) (*value, int) {
+	const probe = 60000
+	mk := func(n int) *wire.Envelope {
+		return &wire.Envelope{Sender: like.Sender, Recipient: like.Recipient, Msg: &wire.ShutdownMsg{Reason: strings.Repeat("e", n)}}
+	}
+	p, _, err := encodeProto(mk(probe))
+	if err != nil {
+		return nil, 0
+	}
+	size := 65535 + slack
+	n := probe + size - (len(p) - 2)
+	if n < 16384 || n > 65535 {
+		return nil, 0
+	}
+	env := mk(n)
+	nat, err := encodeNative(kinds[0], env)
+	if err != nil {
+		return nil, 0
+	}
+	return &value{kind: kinds[0], typ: wire.Shutdown, v: env, native: nat, label: "Env/edge-size Shutdown"}, size
 }
 
 func prevEnd(ends []int, i int) int {
